@@ -1153,3 +1153,7 @@ fn get_peers_in_range(peers: &[PeerId], address: &NetworkAddress, range: U256) -
         })
         .collect()
 }
+
+/// Verification hooks: pass-throughs to crate-private helpers for the external /verif harness.
+#[cfg(maidsafe_safe_network_verif)]
+pub mod verif {}
